@@ -770,6 +770,10 @@ func (c *fnCtx) stmt(s ast.Stmt, k func() term) term {
 				vals = append(vals, c.sresValue(r, &pre))
 				continue
 			}
+			if res[i].k == "eptr" {
+				vals = append(vals, c.elemPtrValue(r, &pre))
+				continue
+			}
 			if s, ok := c.returnExt(i, res[i], r); ok {
 				vals = append(vals, s) // fn_err.go / fn_stdobj.go: nil as an error, an object field as an interface value
 				continue
@@ -1518,7 +1522,11 @@ func (c *fnCtx) rangeStmt(v *ast.RangeStmt, k func() term) term {
 		})
 		pre = append(pre, fnBind{pat: lim.name, e: "zlen " + xv.name, isLet: true})
 		if id, ok := v.Value.(*ast.Ident); ok && id.Name != "_" {
-			val := c.declare(id, t.elem)
+			vt := t.elem
+			if vt.k == "rslice" {
+				vt = &fnType{k: "slice", elem: vt.elem} // an inner slice of a read-only slice of slices: a list of its own
+			}
+			val := c.declare(id, vt)
 			if xv.distinctPtr {
 				if userKey != nil {
 					c.lostAt(v, "range over %s whose body assigns the index variable", xv.name)
